@@ -81,7 +81,8 @@ class Ctx:
             return cur
         base = M.parse_mir(bfile, bdir)
         known = set(f.short for f in base)
-        cprog, bprog = canon.Program(cur, known), canon.Program(base, known)
+        cprog = canon.Program(cur, known, set(canon.fn_key(f) for f in base))
+        bprog = canon.Program(base, known, set(canon.fn_key(f) for f in cur))
 
         def fam_key(f):
             top = re.sub(r'::\{closure#\d+\}', '', f.name)
@@ -1132,6 +1133,57 @@ def spec_async_wait(ctx):
         ctx.ob(key, 'AsyncDispatcher::wait: on every path the state is taken back first, then each thread-local system runs exactly once on the caller', True)
 
 
+def spec_async_setup(ctx):
+    """C13 (async dispatcher): setup() = take the state back (blocking), then Stage::setup for every stage and
+    RunNow::setup for every thread-local system, each once, on the dispatcher's world."""
+    key = 'async-setup'
+    fs = [f for f in ctx.fns() if f.short == 'setup' and 'async_dispatcher.rs' in (f.impl_header + f.name) and '{closure' not in f.name]
+    if len(fs) != 1:
+        raise M.Unsupported('AsyncDispatcher::setup not found (%d)' % len(fs))
+    f = fs[0]
+    i_data = fidx('src/dispatch/async_dispatcher.rs', 'AsyncDispatcher', 'data')
+    i_tl = fidx('src/dispatch/async_dispatcher.rs', 'AsyncDispatcher', 'thread_local')
+    i_w = fidx('src/dispatch/async_dispatcher.rs', 'Inner', 'world')
+    i_st = fidx('src/dispatch/async_dispatcher.rs', 'Inner', 'stages')
+    outs = ctx.run(f)
+    rets = returns(outs)
+    ok_all = len(rets) >= 4 and all(o.kind in ('return', 'bound') for o in outs)
+    why = '%d returning paths, kinds %s' % (len(rets), sorted(set(o.kind for o in outs)))
+    flat = lambda t: str(t).replace('\n', ' ').replace(' ', '')
+    for o in rets:
+        cs = sig(o)
+        ok = len(cs) >= 5 and re.search(r'Data::<.*>::inner$', cs[0].callee) and flat(cs[0].args[0]) == 'ref(fld(deref(p1),%d))' % i_data \
+            and re.search(r'as BorrowMut<(world::)?World>>::borrow_mut$', cs[1].callee) and flat(cs[1].args[0]) == 'ref(fld(deref(%s),%d))' % (cs[0].result, i_w) \
+            and re.search(r'as IntoIterator>::into_iter$', cs[2].callee) and flat(cs[2].args[0]) == 'ref(fld(deref(%s),%d))' % (cs[0].result, i_st)
+        if ok:
+            world = cs[1].result
+            k, phase = 3, 0
+            while ok and k < len(cs):
+                e = cs[k]
+                if re.search(r'as Iterator>::next$', e.callee):
+                    nxt = cs[k + 1] if k + 1 < len(cs) else None
+                    pat = r"^Stage::<.*>::setup$" if phase == 0 else r"RunNow<'_>>::setup$"
+                    if nxt is not None and re.search(pat, nxt.callee):
+                        ok = len(nxt.args) == 2 and term_contains(nxt.args[0], e.result) and ctx.valid('async setup world', nxt.args[1] == world)
+                        k += 2
+                    elif phase == 0 and nxt is not None and re.search(r'as IntoIterator>::into_iter$', nxt.callee):
+                        ok = flat(nxt.args[0]) == 'ref(fld(deref(p1),%d))' % i_tl
+                        phase = 1
+                        k += 2
+                    elif phase == 1 and nxt is None:
+                        k += 1
+                    else:
+                        ok = False
+                else:
+                    ok = False
+            ok = ok and phase == 1
+        if not ok:
+            ok_all = False
+            why = str([e.callee[:70] for e in cs])
+            break
+    ctx.ob(key, 'AsyncDispatcher::setup: waits for the state (Data::inner), then sets up every stage and then every thread-local system exactly once on the dispatcher\'s world', ok_all, '' if ok_all else why)
+
+
 SPECS.update({
     'C02': [('DispatcherBuilder::add resolves names to ids', spec_add)],
     'C03': [('add_barrier forwards / sets the barrier index', spec_add_barrier)],
@@ -1139,7 +1191,8 @@ SPECS.update({
             ('Stage::execute / dispatch_par structure', spec_stage_exec), ('add_batch registers the wrapper', spec_add_batch)],
     'C07': [('add_batch freezes the union', spec_add_batch), ('batch wrapper reports it', spec_batch_wrapper)],
     'C11': [('parallel region structure / pool handling', spec_stage_exec), ('add_batch shares the pool', spec_add_batch)],
-    'C12': [('dispatch = parallel part then thread-local; conversion', spec_forwarders), ('add_thread_local', spec_add_thread_local), ('AsyncDispatcher::wait', spec_async_wait)],
+    'C12': [('dispatch = parallel part then thread-local; conversion', spec_forwarders), ('add_thread_local', spec_add_thread_local), ('AsyncDispatcher::wait', spec_async_wait),
+            ('MultiDispatcher::run repeats whole dispatches (thread-local phase inside each)', spec_multidispatcher)],
     'C13': [('setup/dispose fan-out forwarders', spec_forwarders), ('batch wrapper setup/dispose', spec_batch_setup_dispose)],
     'C18': [('DispatcherBuilder::add: the two rejections', spec_add), ('add_barrier / add_thread_local have no panic of their own', spec_add_barrier), ('add_thread_local', spec_add_thread_local)],
 })
@@ -1266,6 +1319,94 @@ def spec_world_fetch(ctx):
         ctx.ob('world-meta-iter', '%s: every yielded item holds one %s() of the cell just looked up' % (nm, bw), ok, str(len(rets)))
 
 
+def struct_fields(path, name):
+    """[(field, type)] of `struct name { .. }` as written in the source (cfg-gated fields included as written)"""
+    src = open(os.path.join('/repo', path)).read()
+    m = re.search(r'struct\s+%s\b[^{;]*\{(.*?)\n\}' % re.escape(name), src, re.S)
+    if not m:
+        raise M.Unsupported('struct %s not found in %s' % (name, path))
+    out = []
+    for line in m.group(1).split('\n'):
+        line = line.strip()
+        mm = re.match(r'^(?:pub(?:\([^)]*\))?\s+)?(\w+)\s*:\s*(.*?),?$', line)
+        if mm and not line.startswith('//'):
+            out.append((mm.group(1), mm.group(2).strip()))
+    return out
+
+
+def spec_resource_id(ctx):
+    """ResourceId is exactly (TypeId, u64 dynamic id); the constructors store what they are given, unconverted;
+    equality and hashing look at both fields - two ids name the same slot iff type and dynamic id are equal (C09)."""
+    key = 'resource-id'
+    RID = r'^src/world/mod.rs: impl ResourceId'
+    fields = struct_fields('src/world/mod.rs', 'ResourceId')
+    ctx.ob(key, 'struct ResourceId { type_id: TypeId, dynamic_id: u64 } (the width the public constructors take)', fields == [('type_id', 'TypeId'), ('dynamic_id', 'u64')], str(fields))
+    i_ty, i_dy = fidx('src/world/mod.rs', 'ResourceId', 'type_id'), fidx('src/world/mod.rs', 'ResourceId', 'dynamic_id')
+    f = ctx.one(RID, 'from_type_id_and_dynamic_id')
+    ctx.ob(key, 'from_type_id_and_dynamic_id(TypeId, u64)', [t for _, t in f.params] == ['TypeId', 'u64'], str(f.params))
+    o = straight(ctx, key, f, 'from_type_id_and_dynamic_id')
+    if o:
+        v = o.value
+        ok = isinstance(v, Agg) and len(v.fields) == 2 and not sig(o) and ctx.valid('rid.type', to_term(v.fields[i_ty]) == P(1)) and ctx.valid('rid.dyn', to_term(v.fields[i_dy]) == P(2))
+        ctx.ob(key, 'from_type_id_and_dynamic_id stores exactly (type_id, dynamic_id), unconverted, and does nothing else', ok, repr(v))
+    f = ctx.one(RID, 'new_with_dynamic_id')
+    ctx.ob(key, 'new_with_dynamic_id::<T>(u64)', [t for _, t in f.params] == ['u64'], str(f.params))
+    o = straight(ctx, key, f, 'new_with_dynamic_id')
+    if o:
+        cs = match_calls(ctx, key, 'new_with_dynamic_id', o, [r'^TypeId::of::<T>$', r'ResourceId::from_type_id_and_dynamic_id$'])
+        if cs:
+            ok = ctx.valid('nwd t', cs[1].args[0] == cs[0].result) and ctx.valid('nwd d', cs[1].args[1] == P(1)) and ctx.valid('nwd r', to_term(o.value) == cs[1].result)
+            ctx.ob(key, 'new_with_dynamic_id::<T>(d) == from_type_id_and_dynamic_id(TypeId::of::<T>(), d)', ok)
+    for nm, pats in (('new', [r'ResourceId::new_with_dynamic_id::<T>$']), ('from_type_id', [r'ResourceId::from_type_id_and_dynamic_id$'])):
+        o = straight(ctx, key, ctx.one(RID, nm), 'ResourceId::' + nm)
+        if o:
+            cs = match_calls(ctx, key, 'ResourceId::' + nm, o, pats)
+            if cs:
+                zero = str(cs[0].args[-1])
+                ok = ('cst' in zero or zero.startswith('0')) and ctx.valid(nm + ' r', to_term(o.value) == cs[0].result) and (nm == 'new' or ctx.valid('fti', cs[0].args[0] == P(1)))
+                const0 = isinstance(cs[0].argvals[-1], Cst) and cs[0].argvals[-1].text.startswith('0_u64')
+                ctx.ob(key, 'ResourceId::%s forwards with dynamic id 0' % nm, ok and const0, str(cs[0].argvals))
+    # derived PartialEq / Hash: both fields
+    derived = [f for f in ctx.fns() if re.search(r'^world::<impl at src/world/mod.rs:\d+:\d+: \d+:\d+>::(eq|hash)$', f.name) and f.params and f.params[0][1] in ('&world::ResourceId', '&ResourceId')]
+    by = {f.short: f for f in derived}
+    ctx.ob(key, 'ResourceId has PartialEq::eq and Hash::hash bodies in the dump', set(by) == {'eq', 'hash'}, str(sorted(by)))
+    if 'hash' in by:
+        o = straight(ctx, key, by['hash'], 'ResourceId::hash')
+        if o:
+            cs = sig(o)
+            want = {i_ty: r'^<TypeId as Hash>::hash::<', i_dy: r'^<u64 as Hash>::hash::<'}
+            seen = {}
+            for e in cs:
+                for i, pat in want.items():
+                    if re.search(pat, e.callee) and str(e.args[0]).replace('\n', ' ').replace(' ', '') == 'ref(fld(deref(p1),%d))' % i and ctx.valid('hash state', e.args[1] == P(2)):
+                        seen[i] = seen.get(i, 0) + 1
+            ctx.ob(key, 'hash feeds exactly the type id and the (u64) dynamic id of self into the hasher, once each', seen == {i_ty: 1, i_dy: 1} and len(cs) == 2, str([e.callee for e in cs]))
+    if 'eq' in by:
+        outs = ctx.run(by['eq'])
+        rets = returns(outs)
+        ok = len(outs) == len(rets) and len(rets) >= 2
+        n_false = n_fwd = 0
+        for o in rets:
+            cs = sig(o)
+            dec = ' '.join(str(w).replace('\n', ' ') for w, _k in o.st.decisions)
+            dyn_cmp = ('fld(deref(p1), %d)' % i_dy) in dec and ('fld(deref(p2), %d)' % i_dy) in dec and 'cast_' not in dec
+            if not cs:
+                # no type comparison: must be the "dynamic ids differ" path, answering false
+                if isinstance(o.value, Cst) and o.value.text == 'false' and dyn_cmp and any('op_Eq' in str(w) and k == 0 for w, k in o.st.decisions):
+                    n_false += 1
+                else:
+                    ok = False
+            else:
+                e = cs[0]
+                a = [str(x).replace('\n', ' ').replace(' ', '') for x in e.args]
+                if len(cs) == 1 and re.search(r'^<TypeId as PartialEq>::eq$', e.callee) and a == ['ref(fld(deref(p1),%d))' % i_ty, 'ref(fld(deref(p2),%d))' % i_ty] \
+                        and dyn_cmp and ctx.valid('eq r', to_term(o.value) == e.result):
+                    n_fwd += 1
+                else:
+                    ok = False
+        ctx.ob(key, 'eq: false when the dynamic ids differ, otherwise the comparison of the two type ids - nothing is ignored or truncated', ok and n_false == 1 and n_fwd == 1, str([show(o)[:160] for o in outs]))
+
+
 def spec_world_map(ctx):
     i_res = fidx('src/world/mod.rs', 'World', 'resources')
     key = 'world-type-check'
@@ -1340,7 +1481,7 @@ def spec_world_map(ctx):
 
 SPECS.update({
     'C08': [('World fetch paths', spec_world_fetch)],
-    'C09': [('World typed map', spec_world_map)],
+    'C09': [('World typed map', spec_world_map), ('ResourceId: fields, constructors, equality, hash', spec_resource_id)],
 })
 
 
@@ -1914,6 +2055,10 @@ def spec_feature_configs(ctx):
 
 
 SPECS['C19'] = SPECS['C19'] + [('feature configurations', spec_feature_configs)]
+# a batch takes part in planning through the access set add_batch announces for it (and the wrapper reports): isolation and
+# schedule independence of a plan with batches rest on it as much as C07 does
+for _p in ('C01', 'C05'):
+    SPECS[_p] = SPECS[_p] + [('add_batch announces the union', spec_add_batch), ('batch wrapper reports it', spec_batch_wrapper)]
 SPECS['C05'] = SPECS.get('C05', []) + [('feature configurations', spec_feature_configs)]
 
 
@@ -1965,7 +2110,125 @@ def spec_insertion_target(ctx):
     ctx.ob(key, 'insertion_target: the stage search runs over barrier..number_of_stages (a pre-pass may only cross off dependencies of stages 0..barrier)', ok_all, why)
 
 
+def _flat(t):
+    return str(t).replace('\n', ' ').replace(' ', '')
+
+
+def _cst_text(term_text):
+    inv = {v: k for k, v in M._cst_ids.items()}
+    return re.sub(r'cst\((\d+)\)', lambda m: '<%s>' % inv.get(int(m.group(1)), '?'), term_text)
+
+
+def spec_insertion_closures(ctx):
+    """The per-stage steps of insertion_target, for tables of ANY size (the Kani step harnesses decide the same
+    code semantically on small concrete shapes): which tables find_conflict is shown, which verdicts make a stage
+    acceptable, and which target a verdict is turned into."""
+    key = 'planner-stage-steps'
+    cl = sorted([f for f in ctx.fns() if re.search(r'::insertion_target::\{closure#\d+\}$', f.name) and 'stage.rs' in f.name], key=lambda f: f.name)
+    if len(cl) != 3 or [len(f.params) for f in cl] != [2, 2, 2]:
+        ctx.equiv_notes = getattr(ctx, 'equiv_notes', [])
+        ctx.equiv_notes.append('insertion_target is not the reviewed map/find/map chain (%d closures): per-stage steps not specified for this shape; the Kani step harnesses still decide it on the bounded shapes' % len(cl))
+        return
+    c_map, c_find, c_tgt = cl
+    T_ = 'src/dispatch/stage.rs'
+    i_ids, i_r, i_w, i_st = (fidx(T_, 'StagesBuilder', n) for n in ('ids', 'reads', 'writes', 'stages'))
+    i_groups = fidx(T_, 'Stage', 'groups')
+    # ---- closure 0: (stage) -> (stage, find_conflict(tables, stage, reads, writes, deps)); then cross the stage's ids off
+    o = straight(ctx, key, c_map, 'per-stage verdict closure')
+    if o:
+        cs = [e for e in sig(o) if not re.search(r' as Deref(Mut)?>::deref(_mut)?$| as Clone>::clone$', e.callee)]
+        fc = [e for e in cs if re.search(r'StagesBuilder::<.*>::find_conflict::<', e.callee)]
+        rm = [e for e in cs if re.search(r'StagesBuilder::<.*>::remove_ids$', e.callee)]
+        ok = len(cs) == 2 and len(fc) == 1 and len(rm) == 1 and cs.index(fc[0]) < cs.index(rm[0])
+        why = str([e.callee[:60] for e in cs])
+        if ok:
+            allc = list(o.trace)
+            def src_of(t):          # a Deref result -> what was dereferenced; a clone result -> what was cloned
+                for e in allc:
+                    if e.result is not None and t.eq(e.result) and re.search(r' as Deref>::deref$| as Clone>::clone$', e.callee):
+                        return _flat(e.args[0])
+                return _flat(t)
+            a = fc[0].args
+            tabs = [src_of(a[0]), src_of(a[1]), src_of(a[2])]
+            want = ['fld(deref(fld(deref(p1),0)),%d)' % i for i in (i_ids, i_r, i_w)]
+            ok = all(w in t for w, t in zip(want, tabs)) and ctx.valid('fc stage', a[3] == P(2))
+            why = 'find_conflict(%s)' % ', '.join(tabs + [_flat(a[3])])
+            # reads / writes / deps are three different captured values, deps is what remove_ids gets too
+            r_, w_, d_ = src_of(a[4]), src_of(a[5]), _flat(a[6])
+            ok = ok and len({r_, w_, d_}) == 3 and _flat(rm[0].args[2]) == d_ and ctx.valid('rm stage', rm[0].args[1] == P(2)) and _flat(rm[0].args[0]) == 'fld(deref(p1),0)'
+            v = o.value
+            ok = ok and isinstance(v, Agg) and len(v.fields) == 2 and ctx.valid('pair stage', to_term(v.fields[0]) == P(2)) and ctx.valid('pair verdict', to_term(v.fields[1]) == fc[0].result)
+        ctx.ob(key, 'each scanned stage: verdict = find_conflict(ids, reads, writes, stage, new reads, new writes, pending deps); then the stage\'s ids are crossed off the pending deps; yields (stage, verdict)', ok, why)
+    # ---- closure 1: which verdicts make the stage acceptable
+    outs = ctx.run(c_find)
+    rets = returns(outs)
+    ok = len(outs) == len(rets) == 4
+    seen = set()
+    why = str([(o.kind, [(_flat(w), k) for w, k in o.st.decisions]) for o in outs])
+    verdict = 'disc(fld(deref(p2),1))'
+    for o in rets:
+        d = [(_flat(w), k) for w, k in o.st.decisions]
+        cs = sig(o)
+        if not d or d[0][0] != verdict:
+            ok = False
+            break
+        k = d[0][1]
+        if k == M.VARIANT_IDX['None'] and len(d) == 1:
+            good = not cs and isinstance(o.value, Cst) and o.value.text == 'true'
+            seen.add('none')
+        elif k == M.VARIANT_IDX['Multiple'] and len(d) == 1:
+            good = not cs and isinstance(o.value, Cst) and o.value.text == 'false'
+            seen.add('multiple')
+        elif k == M.VARIANT_IDX['Single'] and len(d) == 2:
+            ln = [e for e in cs if re.search(r'^ArrayVec::<.*>::len$', e.callee)]
+            ib = [e for e in cs if re.search(r'StagesBuilder::<.*>::improves_balance$', e.callee)]
+            idx = [e for e in cs if re.search(r' as Index<usize>>::index$', e.callee)]
+            good = len(ln) == 1 and len(idx) == 2 and len(cs) == 3 + len(ib)
+            if good:
+                g = 'fld(mk_as_Single_1(fld(deref(p2),1)),0)'
+                st_ = 'fld(deref(p2),0)'
+                base = _flat(idx[0].args[0])
+                via_stages = base == 'ref(fld(deref(fld(deref(p1),0)),%d))' % i_st and _flat(idx[1].args[0]) == 'ref(fld(deref(%s),%d))' % (idx[0].result, i_groups)
+                via_ids = base == 'ref(fld(deref(fld(deref(p1),0)),%d))' % i_ids and _flat(idx[1].args[0]) in ('ref(deref(%s))' % idx[0].result, str(idx[0].result))
+                good = (via_stages or via_ids) and _flat(idx[0].args[1]) == st_ and _flat(idx[1].args[1]) == g and ctx.valid('len of slot', ln[0].args[0] == idx[1].result)
+                cmp_ = _cst_text(d[1][0])
+                good = good and cmp_.startswith('disc(mk_op_Lt_2(%s,mk_op_Sub_2(<' % ln[0].result) and 'MAX_SYSTEMS_PER_GROUP' in cmp_ and cmp_.endswith(',<1_usize>)))')
+                if d[1][1] == 0:
+                    good = good and not ib and isinstance(o.value, Cst) and o.value.text == 'false'
+                    seen.add('single-full')
+                else:
+                    good = good and len(ib) == 1 and _flat(ib[0].args[0]) == 'fld(deref(p1),0)' and _flat(ib[0].args[1]) == st_ and _flat(ib[0].args[2]) == g \
+                        and ctx.valid('accept = improves_balance', to_term(o.value) == ib[0].result)
+                    seen.add('single-room')
+        else:
+            good = False
+        if not good:
+            ok = False
+            why = show(o)[:300] + ' | ' + _cst_text(str(d))[:200]
+            break
+    ctx.ob(key, 'a scanned stage is taken iff its verdict is None, or Single(g) with len(group g) < MAX_SYSTEMS_PER_GROUP - 1 and improves_balance(stage, g, time); never for Multiple - nothing else is consulted',
+           ok and seen == {'none', 'multiple', 'single-full', 'single-room'}, '' if ok and len(seen) == 4 else why)
+    # ---- closure 2: verdict -> target
+    outs = ctx.run(c_tgt)
+    rets = returns(outs)
+    ok = len(rets) == 2 and all(o.kind in ('return', 'diverge') for o in outs)
+    seen = set()
+    for o in rets:
+        d = [(_flat(w), k) for w, k in o.st.decisions]
+        v = o.value
+        if len(d) == 1 and d[0][0] == 'disc(fld(p2,1))' and isinstance(v, Agg) and not sig(o):
+            if d[0][1] == M.VARIANT_IDX['None'] and v.variant == 'Stage' and len(v.fields) == 1 and _flat(to_term(v.fields[0])) == 'fld(p2,0)':
+                seen.add('stage')
+            elif d[0][1] == M.VARIANT_IDX['Single'] and v.variant == 'Group' and len(v.fields) == 2 and _flat(to_term(v.fields[0])) == 'fld(p2,0)' \
+                    and _flat(to_term(v.fields[1])) == 'fld(mk_as_Single_1(fld(p2,1)),0)':
+                seen.add('group')
+    ctx.ob(key, 'the stage found is turned into Stage(that stage) for verdict None and Group(that stage, g) for Single(g)', ok and seen == {'stage', 'group'}, str([show(o)[:200] for o in outs]))
+
+
 SPECS['C03'] = SPECS['C03'] + [('stage search range', spec_insertion_target)]
+SPECS['C03'] = SPECS['C03'] + [('per-stage steps of the search', spec_insertion_closures)]
+SPECS['C10'] = SPECS.get('C10', []) + [('per-stage steps of the search', spec_insertion_closures)]
+SPECS['C18'] = SPECS['C18'] + [('per-stage steps of the search (capacity guard)', spec_insertion_closures)]
 
 
 # ================================================================================================
@@ -2040,7 +2303,291 @@ def spec_builder_small(ctx):
 
 
 SPECS['C06'] = SPECS['C06'] + [('trait default methods', spec_system_defaults)]
-SPECS['C13'] = SPECS['C13'] + [('trait default methods', spec_system_defaults), ('setup handlers and leaf setups', spec_c06_leaves)]
+SPECS['C13'] = SPECS['C13'] + [('trait default methods', spec_system_defaults), ('setup handlers and leaf setups', spec_c06_leaves), ('AsyncDispatcher::setup', spec_async_setup)]
 SPECS['C11'] = SPECS['C11'] + [('pool setters', spec_builder_small)]
 SPECS['C12'] = SPECS['C12'] + [('with_thread_local', spec_builder_small)]
 SPECS['C08'] = SPECS['C08'] + [('try_fetch_internal', spec_builder_small)]
+
+# ================================================================================================
+# functions of the anchored files that no specification looked at (found by an audit of the dump against the
+# functions every property's E2 part executes): loops of Stage, the async dispatcher, small forwarders
+
+NOISE2 = r"as Deref(Mut)?>::deref(_mut)?$|core::fmt::|Arguments::<|::type_name::<|^drop$|tynm::|eprint"   # like NOISE but Borrow::borrow is an event
+
+
+def nested_loop_ok(ctx, fn, outer_src, body_pat, world, min_paths=4):
+    """every returning path is  into_iter(outer_src) (next into_iter(item) (next BODY(item', world))* next)* next
+    - each inner item gets exactly one BODY call, in iteration order, nothing else happens. -> (ok, why)"""
+    outs = ctx.run(fn)
+    rets = returns(outs)
+    if len(rets) < min_paths or not all(o.kind in ('return', 'bound') for o in outs):
+        return False, '%d returning paths, kinds %s' % (len(rets), sorted(set(o.kind + ':' + o.detail[:20] for o in outs)))
+    for o in rets:
+        cs = sig(o)
+        toks = ''
+        for e in cs:
+            if re.search(r'as IntoIterator>::into_iter$', e.callee):
+                toks += 'I'
+            elif re.search(r'as Iterator>::next$', e.callee):
+                toks += 'N'
+            elif re.search(body_pat, e.callee):
+                toks += 'B'
+            else:
+                toks += '?'
+        if not re.match(r'^I(NI(NB)*N)*N$', toks):
+            return False, 'call sequence %s: %s' % (toks, [e.callee[:50] for e in cs][:12])
+        if _flat(cs[0].args[0]) != outer_src:
+            return False, 'outer loop runs over %s' % _flat(cs[0].args[0])
+        last_outer = last_inner = None
+        outer_recv = inner_recv = None
+        depth = 0
+        for i, (t, e) in enumerate(zip(toks, cs)):
+            if i == 0:
+                continue
+            if t == 'N':
+                nxt = toks[i + 1] if i + 1 < len(toks) else ''
+                inner_pos = depth == 1
+                if inner_pos:
+                    if inner_recv is None:
+                        inner_recv = _flat(e.args[0])
+                    if _flat(e.args[0]) != inner_recv:
+                        return False, 'inner next on another iterator'
+                    last_inner = e
+                    if nxt != 'B':
+                        depth = 0        # inner loop finished
+                else:
+                    if outer_recv is None:
+                        outer_recv = _flat(e.args[0])
+                    if _flat(e.args[0]) != outer_recv:
+                        return False, 'outer next on another iterator'
+                    last_outer = e
+            elif t == 'I':
+                if last_outer is None or not term_contains(e.args[0], last_outer.result):
+                    return False, 'inner loop does not run over the item the outer loop yielded'
+                depth = 1
+                inner_recv = None
+            elif t == 'B':
+                if last_inner is None or not term_contains(e.args[0], last_inner.result) or len(e.args) != 2 or not ctx.valid('loop body world', e.args[1] == world):
+                    return False, 'body call %s(%s)' % (e.callee[:40], [_flat(a)[:50] for a in e.args])
+    return True, ''
+
+
+def spec_stage_loops(ctx):
+    """Stage::setup / dispose / execute_seq: every system of every group exactly once, in table order (C13, C04, C05)"""
+    ST = r"^src/dispatch/stage.rs: impl Stage<'_>"
+    i_g = fidx('src/dispatch/stage.rs', 'Stage', 'groups')
+    for nm, src, body, txt in (('setup', 'ref(fld(deref(p1),%d))' % i_g, r"RunNow<'_>>::setup$", 'sets up'),
+                               ('dispose', 'fld(p1,%d)' % i_g, r"RunNow<'_>>::dispose$", 'disposes of'),
+                               ('execute_seq', 'ref(fld(deref(p1),%d))' % i_g, r"RunNow<'_>>::run_now$", 'runs')):
+        ok, why = nested_loop_ok(ctx, ctx.one(ST, nm), src, body, P(2))
+        ctx.ob('stage-' + nm, 'Stage::%s %s every system of every group exactly once, in group order then system order, on the world passed in; nothing else' % (nm, txt), ok, why)
+
+
+def spec_async_dispatch(ctx):
+    """AsyncDispatcher::dispatch: the spawned job executes every stage once, in order, on the dispatcher's world and
+    then hands the state back (C04 for the async path; which stage runs what is the planner's business)."""
+    key = 'async-dispatch'
+    A = 'async_dispatcher.rs'
+    i_data = fidx('src/dispatch/async_dispatcher.rs', 'AsyncDispatcher', 'data')
+    i_tp = fidx('src/dispatch/async_dispatcher.rs', 'AsyncDispatcher', 'thread_pool')
+    i_w = fidx('src/dispatch/async_dispatcher.rs', 'Inner', 'world')
+    i_st = fidx('src/dispatch/async_dispatcher.rs', 'Inner', 'stages')
+    fs = [f for f in ctx.fns() if f.short == 'dispatch' and A in (f.impl_header + f.name) and '{closure' not in f.name]
+    cl = [f for f in ctx.fns() if f.name.endswith('::dispatch::{closure#0}') and A in f.name]
+    if len(fs) != 1 or len(cl) != 1:
+        raise M.Unsupported('AsyncDispatcher::dispatch / its job closure not found')
+    o = straight(ctx, key, fs[0], 'AsyncDispatcher::dispatch')
+    if o:
+        cs = sig(o)
+        snd = [e for e in cs if re.search(r'Data::<.*>::sender$', e.callee)]
+        sp = [e for e in cs if re.search(r'ThreadPool::spawn::<', e.callee)]
+        ok = len(snd) == 1 and len(sp) == 1 and cs.index(snd[0]) < cs.index(sp[0]) and _flat(snd[0].args[0]) == 'ref(fld(deref(p1),%d))' % i_data \
+            and not [e for e in cs if re.search(r'Stage::<|RunNow', e.callee)]
+        if ok:
+            clv = sp[0].argvals[1]
+            ok = isinstance(clv, Agg) and len(clv.fields) == 2 and all(term_contains(to_term(x), snd[0].result) for x in clv.fields)
+            # the pool the job is spawned on is the one behind this dispatcher's handle
+            rd = [e for e in cs if re.search(r'RwLock::<.*>::read$', e.callee)]
+            ok = ok and len(rd) == 1 and any(re.search(r' as Deref>::deref$', e.callee) and _flat(e.args[0]) == 'ref(fld(deref(p1),%d))' % i_tp and rd[0].args[0].eq(e.result) for e in o.trace)
+        ctx.ob(key, 'dispatch: takes (sender, state) from Data::sender (which waits for a running dispatch) and spawns ONE job holding both on this dispatcher\'s pool; runs nothing on the caller', ok, str([e.callee[:60] for e in cs]))
+    # the job
+    outs = ctx.run(cl[0])
+    rets = returns(outs)
+    ok = len(rets) >= 3 and all(x.kind in ('return', 'bound') for x in outs)
+    why = '%d returning paths' % len(rets)
+    for o in rets:
+        cs = sig(o, NOISE2)
+        good = len(cs) >= 4 and re.search(r'as Borrow<(world::)?World>>::borrow$', cs[0].callee) and re.search(r'as IntoIterator>::into_iter$', cs[1].callee) \
+            and re.search(r'mpsc::Sender::<.*>::send$', cs[-1].callee)
+        if good:
+            state = None
+            m = re.match(r'^ref\(fld\((.*),%d\)\)$' % i_w, _flat(cs[0].args[0]))
+            good = m is not None and _flat(cs[1].args[0]) == 'ref(fld(%s,%d))' % (m.group(1), i_st)
+            world = cs[0].result
+            body = cs[2:-1]
+            k = 0
+            while good and k < len(body):
+                if not re.search(r'as Iterator>::next$', body[k].callee):
+                    good = False
+                elif k + 1 < len(body):
+                    b = body[k + 1]
+                    good = re.search(r'^Stage::<.*>::execute$', b.callee) is not None and term_contains(b.args[0], body[k].result) and ctx.valid('job world', b.args[1] == world)
+                k += 2
+            good = good and len(body) % 2 == 1
+            # what is sent back is the captured state itself
+            good = good and m is not None and _flat(cs[-1].args[1]).replace('local__1', 'p1') in (m.group(1).replace('local__1', 'p1'),)
+        if not good:
+            ok = False
+            why = str([e.callee[:60] for e in cs]) + ' sent=' + (_flat(cs[-1].args[1]) if cs else '')
+            break
+    ctx.ob(key, 'the spawned job: world = state.world.borrow(); every stage of state.stages is executed exactly once, in order; then the state is sent back - on every path', ok, '' if ok else why)
+
+
+def spec_async_data(ctx):
+    """Data::inner (what wait/setup/world block on) and Data::sender (what dispatch starts with)"""
+    key = 'async-state'
+    D = r'^src/dispatch/async_dispatcher.rs: impl<R> Data<R>'
+    outs = ctx.run(ctx.one(D, 'inner'))
+    rets = returns(outs)
+    ok = len(outs) == len(rets) == 2
+    seen = set()
+    for o in rets:
+        cs = sig(o)
+        d = [(_flat(w), k) for w, k in o.st.decisions]
+        if d and d[0] == ('disc(deref(p1))', M.VARIANT_IDX.get('Inner', 0)) and not cs:
+            seen.add('inner')
+        elif d and d[0][0] == 'disc(deref(p1))' and len(cs) == 3 and re.search(r'mpsc::Receiver::<.*>::recv$', cs[0].callee) and re.search(r'Result::<.*>::(expect|unwrap)$', cs[1].callee) \
+                and re.search(r'Data::<R>::inner$', cs[2].callee) and cs[1].args[0].eq(cs[0].result) and _flat(cs[2].args[0]) == 'p1' and ctx.valid('inner r', to_term(o.value) == cs[2].result):
+            stored = final_heap(o, M.f_deref(P(1)), []) if False else None
+            seen.add('rx')
+    ctx.ob(key, 'Data::inner: returns the state when it is here; otherwise BLOCKS on Receiver::recv (a dropped sender is a panic), stores what arrived and returns it', ok and seen == {'inner', 'rx'}, str([show(o)[:200] for o in outs]))
+    outs = ctx.run(ctx.one(D, 'sender'))
+    rets = returns(outs)
+    ok = len(rets) == 1
+    if ok:
+        o = rets[0]
+        cs = sig(o)
+        ok = len(cs) == 3 and re.search(r'Data::<R>::inner$', cs[0].callee) and re.search(r'mpsc::channel::<', cs[1].callee) and re.search(r'mem::replace::<Data<R>>$', cs[2].callee) \
+            and _flat(cs[2].args[0]) == 'p1' and 'Rx' in _flat(cs[2].args[1]) and term_contains(cs[2].args[1], cs[1].result)
+        v = o.value
+        ok = ok and isinstance(v, Agg) and len(v.fields) == 2 and term_contains(to_term(v.fields[0]), cs[1].result) and term_contains(to_term(v.fields[1]), cs[2].result)
+    ctx.ob(key, 'Data::sender: first waits for the state (inner), then leaves the receiving end of a fresh channel in its place and returns (sending end, state)', ok, str([show(o)[:200] for o in outs]))
+
+
+def spec_small_forwards(ctx):
+    """One-call forwarders nothing else looks at."""
+    # C10: Dispatcher::max_threads
+    key = 'max-threads-forward'
+    D = r"^src/dispatch/dispatcher.rs: impl<'a> Dispatcher<'a, '_>"
+    i_in = fidx('src/dispatch/dispatcher.rs', 'Dispatcher', 'inner')
+    fs = ctx.find(D, 'max_threads', optional=True)
+    if len(fs) == 1:
+        o = straight(ctx, key, fs[0], 'Dispatcher::max_threads')
+        if o:
+            cs = match_calls(ctx, key, 'Dispatcher::max_threads', o, [r'^SendDispatcher::<.*>::max_threads$'])
+            if cs:
+                ctx.ob(key, 'Dispatcher::max_threads is the inner dispatcher\'s value, unchanged', _flat(cs[0].args[0]) == 'ref(fld(deref(p1),%d))' % i_in and ctx.valid('mt', to_term(o.value) == cs[0].result))
+    else:
+        raise M.Unsupported('Dispatcher::max_threads not found')
+
+
+def spec_parseq_wrapper(ctx):
+    """ParSeq::{new, setup, dispatch} and its RunNow impl hand the tree and the pool through unchanged (C16)"""
+    key = 'parseq-wrapper'
+    i_run, i_pool = fidx('src/dispatch/par_seq.rs', 'ParSeq', 'run'), fidx('src/dispatch/par_seq.rs', 'ParSeq', 'pool')
+    PS = [f for f in ctx.fns() if re.search(r'par_seq.rs: impl<P, T> (RunNow<\'_> for )?ParSeq<P, T>', f.impl_header or '')]
+    by = {}
+    for f in PS:
+        by.setdefault(f.short, []).append(f)
+    ctx.ob(key, 'ParSeq has new / setup / dispatch and RunNow::{run_now, setup}', sorted((k, len(v)) for k, v in by.items()) == [('dispatch', 1), ('new', 1), ('run_now', 1), ('setup', 2)], str(sorted((k, len(v)) for k, v in by.items())))
+    for nm, fl in by.items():
+        for f in fl:
+            o = straight(ctx, key, f, 'ParSeq::' + nm)
+            if not o:
+                continue
+            cs = sig(o, NOISE2)
+            if nm == 'new':
+                v = o.value
+                ok = isinstance(v, Agg) and not cs and ctx.valid('ps run', to_term(v.fields[i_run]) == P(1)) and ctx.valid('ps pool', to_term(v.fields[i_pool]) == P(2))
+                ctx.ob(key, 'ParSeq::new stores the tree and the pool', ok, repr(v))
+            elif nm == 'setup':
+                ok = len(cs) == 1 and re.search(r"RunWithPool<'_>>::setup$", cs[0].callee) and _flat(cs[0].args[0]) == 'ref(fld(deref(p1),%d))' % i_run and ctx.valid('ps w', cs[0].args[1] == P(2))
+                ctx.ob(key, 'ParSeq setup = setup of the tree on the world passed in', ok, str([e.callee[:60] for e in cs]))
+            else:
+                bor = [e for e in cs if re.search(r'as Borrow<(rayon::)?ThreadPool>>::borrow$', e.callee)]
+                run = [e for e in cs if re.search(r"RunWithPool<'_>>::run$", e.callee)]
+                ok = len(cs) == 2 and len(bor) == 1 and len(run) == 1 and _flat(bor[0].args[0]) == 'ref(fld(deref(p1),%d))' % i_pool and _flat(run[0].args[0]) == 'ref(fld(deref(p1),%d))' % i_run \
+                    and ctx.valid('ps rw', run[0].args[1] == P(2)) and run[0].args[2].eq(bor[0].result)
+                ctx.ob(key, 'ParSeq %s = run of the tree on the world passed in with the pool it was given' % nm, ok, str([e.callee[:60] for e in cs]))
+
+
+def spec_empty_accessors(ctx):
+    """Accessor for () and PhantomData<T>: declare nothing (C06: what the default accessor of a system declares comes
+    from StaticAccessor; these two are for systems without data)"""
+    key = 'accessor-empty'
+    fs = [f for f in ctx.fns() if re.search(r'^src/system.rs: impl(<T: \?Sized>)? Accessor for (\(\)|PhantomData<T>)', f.impl_header or '') and f.short in ('reads', 'writes')]
+    ctx.ob(key, 'Accessor for () and PhantomData<T>: reads and writes found', len(fs) == 4, str([f.name[-40:] for f in fs]))
+    for f in fs:
+        seq_of_ids(ctx, key, 'Accessor ' + re.sub(r'^.*for ', '', f.impl_header)[:16] + '::' + f.short, f, [])
+
+
+def spec_build_async(ctx):
+    """DispatcherBuilder::build_async: same hand-over as build (C11 shared pool, C12 thread-local list)"""
+    key = 'build-async'
+    fs = [f for f in ctx.fns() if f.short == 'build_async' and 'builder.rs' in (f.impl_header + f.name)]
+    if len(fs) != 1:
+        raise M.Unsupported('build_async not found')
+    o = straight(ctx, key, fs[0], 'build_async')
+    if o:
+        cs = sig(o)
+        g = [e for e in cs if re.search(r'get_or_insert_with::<fn\(\) -> Arc<(rayon::)?ThreadPool> \{DispatcherBuilder::<.*>::create_thread_pool\}>$', e.callee)]
+        na = [e for e in cs if re.search(r'^new_async::<R>$', e.callee)]
+        sbb = [e for e in cs if re.search(r'^StagesBuilder::<.*>::build$', e.callee)]
+        i_sb = fidx('src/dispatch/builder.rs', 'DispatcherBuilder', 'stages_builder')
+        i_tl = fidx('src/dispatch/builder.rs', 'DispatcherBuilder', 'thread_local')
+        i_tp = fidx('src/dispatch/builder.rs', 'DispatcherBuilder', 'thread_pool')
+        ok = len(g) == 1 and len(na) == 1 and len(sbb) == 1 and ctx.valid('ba1', sbb[0].args[0] == M.f_fld(P(1), i_sb)) and ctx.valid('ba0', na[0].args[0] == P(2)) and ctx.valid('ba2', na[0].args[1] == sbb[0].result) \
+            and ctx.valid('ba3', na[0].args[2] == M.f_fld(P(1), i_tl)) and ctx.valid('ba4', na[0].args[3] == M.f_fld(P(1), i_tp)) and ctx.valid('ba5', to_term(o.value) == na[0].result)
+        ctx.ob(key, 'build_async: keeps a user pool (get_or_insert_with), passes the world, the planned stages, the thread-local list and the shared pool handle to new_async', ok, str([e.callee[:60] for e in cs]))
+    na = [f for f in ctx.fns() if f.name == 'new_async' or f.name.endswith('::new_async')]
+    if len(na) == 1:
+        o = straight(ctx, key, na[0], 'new_async')
+        if o:
+            v = o.value
+            A_ = 'src/dispatch/async_dispatcher.rs'
+            ok = isinstance(v, Agg) and not sig(o)
+            if ok:
+                data = v.fields[fidx(A_, 'AsyncDispatcher', 'data')]
+                ok = isinstance(data, Agg) and data.variant == 'Inner' and isinstance(data.fields[0], Agg)
+                if ok:
+                    inner = data.fields[0]
+                    ok = ctx.valid('na w', to_term(inner.fields[fidx(A_, 'Inner', 'world')]) == P(1)) and ctx.valid('na s', to_term(inner.fields[fidx(A_, 'Inner', 'stages')]) == P(2)) \
+                        and ctx.valid('na tl', to_term(v.fields[fidx(A_, 'AsyncDispatcher', 'thread_local')]) == P(3)) and ctx.valid('na tp', to_term(v.fields[fidx(A_, 'AsyncDispatcher', 'thread_pool')]) == P(4))
+            ctx.ob(key, 'new_async stores world, stages, thread-local list and pool handle unchanged; the state starts out "here"', ok, repr(v)[:300])
+    else:
+        raise M.Unsupported('new_async not found')
+
+
+SPECS['C13'] = SPECS['C13'] + [('Stage::setup / dispose loops', spec_stage_loops), ('async state hand-over', spec_async_data)]
+SPECS['C04'] = SPECS['C04'] + [('Stage loops (execute_seq)', spec_stage_loops), ('async dispatch job', spec_async_dispatch)]
+SPECS['C05'] = SPECS['C05'] + [('Stage loops (execute_seq)', spec_stage_loops)]
+SPECS['C12'] = SPECS['C12'] + [('async state hand-over', spec_async_data), ('build_async', spec_build_async)]
+SPECS['C11'] = SPECS['C11'] + [('build_async', spec_build_async), ('async dispatch job runs on the shared pool', spec_async_dispatch)]
+SPECS['C10'] = SPECS['C10'] + [('Dispatcher::max_threads', spec_small_forwards)]
+SPECS['C16'] = SPECS['C16'] + [('ParSeq wrapper', spec_parseq_wrapper)]
+SPECS['C06'] = SPECS['C06'] + [('Accessor for () / PhantomData', spec_empty_accessors)]
+
+
+# ---- the properties whose E2 part used to be a hand-picked list in props.py: the table above is the single source now
+def _ensure(pid, *fns):
+    have = [f for _, f in SPECS.get(pid, [])]
+    for title, fn in fns:
+        if fn not in have:
+            SPECS.setdefault(pid, []).append((title, fn))
+
+
+_ensure('C01', ('Stage::execute / dispatch_par structure', spec_stage_exec))
+_ensure('C03', ('commit part of insert', spec_insert))
+_ensure('C05', ('Stage::execute / dispatch_par structure', spec_stage_exec))
+_ensure('C19', ('DispatcherBuilder::add resolves names to ids', spec_add))
+
